@@ -27,6 +27,8 @@ import shutil
 
 from .common import *
 from .cfgread import *
+from . import c09re
+from .regen_re import build_regex_tables
 
 PROP = "C09"
 
@@ -624,12 +626,14 @@ def run(tier, seed):
         "inputs <= 4 KiB per file, actor multiplicities <= 50 (thorough) / 8 (quick), include depth up to 12"]
     try:
         build_go()
+        retbl = build_regex_tables()   # Gen/ClauseRe.lean from the Go source, before the driver is built
         build_driver()
     except BuildError as e:
         rep.obligation("build", "K", False, e.output)
         rep.violation("build failed: " + e.what, {"output": e.output[-4000:], "broken": "K-C09 (build)"}, nofail=True)
         return rep.finish("./check C09", "n/a")
     ok, info = standard_proof_step(rep, PROP, thorough=not quick)
+    reok, reinfo = c09re.proof_step(rep, thorough=not quick)
     rng = SplitMix(seed)
     with Scratch("verif-c09-") as root:
         impl, model = ImplAt(root), Model()
@@ -643,6 +647,10 @@ def run(tier, seed):
             check_case(ctx, gen_case(rng, mult), rng)
         gbad = check_gostr(rep, impl, model, rng, 400 if quick else 5000)
         ebad = check_edit(rep, ctx, rng, 150 if quick else 1500)
+        t_re = time.time()
+        rex = c09re.run_extra(rep, impl, model, root, rng, quick, retbl, gen_valid)
+        rep.count("re-extra-seconds", int(time.time() - t_re + 0.5))
+        ctx.ofail += rex["ofail"]
         rep.sample({"case": ctx.kdis[0]["case"] if ctx.kdis else gen_case(SplitMix(seed), 3)["files"]["main.cfg"].decode("latin-1")[:400]})
         restarts = impl.restarts
         impl.close()
@@ -652,6 +660,9 @@ def run(tier, seed):
                    "K", not ctx.kdis, json.dumps(ctx.kdis[:3], default=str)[:1900])
     rep.obligation("K-C09b: syntax check of `edit` vs its model", "K", not ebad, json.dumps(ebad[:3]))
     rep.obligation("K-C09c: filepath.Join / Dir, strings.TrimSpace vs the model's re-implementation", "K", not gbad, json.dumps(gbad[:3]))
+
+    rep.obligation("K-RE: Go regexp.FindStringSubmatchIndex on the source literals vs the Lean matcher over the regenerated table: %d (regexp, line) pairs, "
+                   "match / no match and every span" % rex["npairs"], "K", not rex["kdis"], json.dumps(rex["kdis"][:3], default=str)[:1900])
 
     groups = {}
     for f in ctx.ofail:
@@ -667,13 +678,22 @@ def run(tier, seed):
     rep.obligation("O-C09a: no panic, no hang on any input (generated testing of the unmodelled clause parsers; %d harness restarts)" % restarts, "O",
                    not ({"panic", "hang"} & set(unknown)), json.dumps([f["what"] for f in ctx.ofail if f["tags"].get("kind") in ("panic", "hang")][:3]))
     rep.obligation("O-C09b: every real diagnostic is truthful: position exists, first line of the clause, chain, blamed clause invalid alone (inputs matching a known finding excepted)", "O",
-                   not (set(unknown) - {"panic", "hang"}),
-                   json.dumps([f["what"] for f in ctx.ofail if f["tags"].get("kind") not in ("panic", "hang", "include-chain-line")][:3]))
+                   not [k for k in set(unknown) - {"panic", "hang"} if not str(k).startswith("syntax-oracle")],
+                   json.dumps([f["what"] for f in ctx.ofail if f["tags"].get("kind") not in ("panic", "hang", "include-chain-line")
+                               and not str(f["tags"].get("kind")).startswith("syntax-oracle")][:3]))
+    rep.obligation("O-C09-syntax: %d single clauses inside their section: no regexp of the section's dispatch chain matches (model) => rejected with \"unknown syntax\" "
+                   "at that line (%d such clauses, cross-checked through the real loader); some regexp matches => never \"unknown syntax\" there" % (rex["ncases"], rex["nrej"]), "O",
+                   not [k for k in unknown if str(k).startswith("syntax-oracle")] and rex["nrej"] > 0,
+                   json.dumps([f["what"] for f in ctx.ofail if str(f["tags"].get("kind")).startswith("syntax-oracle")][:3]))
     if not unknown:
         if not ok:
             rep.violation("proof obligations of C09 no longer check", {"broken_theorems": info["failed"], "lean_output": info["output"][-3000:]}, nofail=True)
+        elif not reok:
+            rep.violation("theorems over the regenerated clause regexps no longer check", {"broken_theorems": reinfo["failed"], "lean_output": reinfo["output"][-3000:]}, nofail=True)
         elif ctx.kdis or ebad or gbad:
             rep.violation("correspondence K-C09 disagrees", {"broken": "K-C09a/b/c", "disagreements": (ctx.kdis + ebad + gbad)[:10]}, nofail=True)
+        elif rex["kdis"]:
+            rep.violation("correspondence K-RE disagrees: Go's regexp and the Lean matcher differ on a line", {"broken": "K-RE", "disagreements": rex["kdis"][:10]}, nofail=True)
     known_only = bool(groups) and not unknown
     return rep.finish("cd lean && lake build ShkModel.Props.C09 && #print axioms",
                       "scratch trees: grammar-derived configurations (clause shapes of docs/manual.md), 1-3 mutations of them (16 operators), arbitrary bytes, "
